@@ -357,10 +357,10 @@ Qed.
 (* position i owns the GP entry i, the vector entry i and the home slot [8 i, 8 i + 8) *)
 Definition pos_st (i : Z) : xst := mkXst i i (8 * i).
 
-Lemma win64_value_good i t : 0 <= i -> (t = 44 -> order_at (cc_ovec c) i <> 255) ->
+Lemma win64_value_good i t : 0 <= i ->
   Good c (pos_st i) [win64_value c i t] (pos_st (i + 1)).
 Proof.
-  intros P F. unfold win64_value, pos_st. cbv zeta.
+  intros P. unfold win64_value, pos_st. cbv zeta.
   pose proof (size_of_nonneg t) as Sz. pose proof (reg_size_bounds (cc_arch c)) as Rs.
   destruct (ty_is_int t || ty_is_mmx t) eqn:IM.
   - pose proof (size_small_im t IM) as S8.
@@ -372,10 +372,9 @@ Proof.
       * intros _. apply hit_gp; cbn [x_gp fv_rtype fv_reg fv_rid]; try assumption; try reflexivity. apply group_gpb.
       * cbn. discriminate.
   - destruct (ty_is_float t || ty_is_vec t) eqn:FV.
-    + assert (Stack_f : ty_is_float t = true -> order_at (cc_ovec c) i = 255 ->
+    + assert (Stack_f : ty_is_float t && (size_of t <=? 8) = true ->
                         Good c (mkXst i i (8 * i)) [fv_stack t (8 * i)] (mkXst (i + 1) (i + 1) (8 * (i + 1)))).
-      { intros Fl E. assert (N : t <> 44) by (intros ->; apply F; [reflexivity | exact E]).
-        pose proof (size_small_f t Fl N) as S8.
+      { intros Fl. apply andb_prop in Fl. destruct Fl as [_ S8]. apply Z.leb_le in S8.
         apply Good_single; cbn [x_gp x_vec x_off]; try lia.
         - cbn. discriminate.
         - intros _. unfold stk_ok, val_bytes. cbn [fv_off fv_ind fv_ty fv_stack fv_stack_ind x_off]. lia. }
@@ -396,34 +395,32 @@ Proof.
         - intros _. apply hit_vec; cbn [x_vec fv_rtype fv_reg fv_rid]; try assumption; try reflexivity. apply group_x86vec.
         - cbn. discriminate. }
       destruct (Z.eqb_spec (order_at (cc_ovec c) i) 255) as [E|E]; cbn [negb andb].
-      * destruct (ty_is_float t) eqn:Fl; [apply Stack_f; [reflexivity | exact E] | exact Ind].
-      * destruct (ty_is_float t) eqn:Fl; cbn [orb].
+      * destruct (ty_is_float t && (size_of t <=? 8)) eqn:Fl; [apply Stack_f; reflexivity | exact Ind].
+      * destruct (ty_is_float t && (size_of t <=? 8)) eqn:Fl; cbn [orb].
         -- apply Reg. exact E.
-        -- destruct (cc_strategy c =? 2); [apply Reg; exact E | exact Ind].
+        -- destruct (cc_strategy c =? 2); destruct (ty_is_float t); cbn [andb negb];
+             first [apply Reg; exact E | exact Ind | (rewrite Fl; exact Ind)].
     + apply Good_single; cbn [x_gp x_vec x_off]; try lia; cbn; discriminate.
 Qed.
 
 Lemma win64_args_good ts : forall i, 0 <= i ->
-  (forall k, nth_error ts k = Some 44 -> order_at (cc_ovec c) (i + Z.of_nat k) <> 255) ->
   Good c (pos_st i) (concat (win64_args c i ts)) (pos_st (i + Z.of_nat (length ts))).
 Proof.
-  induction ts as [|t r IH]; intros i P F; cbn [win64_args concat].
+  induction ts as [|t r IH]; intros i P; cbn [win64_args concat].
   - apply Good_nil; unfold pos_st; cbn [x_gp x_vec x_off length]; lia.
   - apply (Good_app c Hgp Hvec (pos_st i) _ (pos_st (i + 1))).
     + destruct (Z.eqb_spec t 0) as [E|E].
       * apply Good_nil; unfold pos_st; cbn [x_gp x_vec x_off]; lia.
-      * apply win64_value_good; [exact P|]. intros T. specialize (F 0%nat). cbn [nth_error] in F.
-        replace (i + Z.of_nat 0) with i in F by lia. apply F. congruence.
+      * apply win64_value_good; exact P.
     + replace (i + Z.of_nat (length (t :: r))) with (i + 1 + Z.of_nat (length r)) by (cbn [length]; lia).
-      apply IH; [lia|]. intros k K. replace (i + 1 + Z.of_nat k) with (i + Z.of_nat (S k)) by lia. apply F. exact K.
+      apply IH; lia.
 Qed.
 
 Theorem locations_disjoint_win64 args rets :
-  (forall k, nth_error args k = Some 44 -> order_at (cc_ovec c) (Z.of_nat k) <> 255) ->
   wf_locs (mkFD c rets (win64_args c 0 args) (8 * Z.max (Z.of_nat (length args)) 4)).
 Proof.
-  intros F. apply (Good_final c (pos_st 0) _ (pos_st (0 + Z.of_nat (length args)))).
-  - apply win64_args_good; [lia|]. intros k K. replace (0 + Z.of_nat k) with (Z.of_nat k) by lia. apply F. exact K.
+  apply (Good_final c (pos_st 0) _ (pos_st (0 + Z.of_nat (length args)))).
+  - apply win64_args_good; lia.
   - cbn. lia.
   - unfold pos_st. cbn [x_off]. lia.
 Qed.
@@ -500,28 +497,15 @@ Proof.
 Qed.
 
 (* ------------------------------------------------------------------ FuncDetail::init *)
-(* guard: under the Win64 / vectorcall strategy an 80-bit float argument (type id 44) has to sit at a position that
-   still has a vector register (position < 4 for Win64, < 6 for vectorcall); see the counterexamples below *)
-Definition f80_guard (e : env) (s : sig) : Prop :=
-  forall c, init_call_conv e (s_cc s) = inl c -> cc_strategy c = 1 \/ cc_strategy c = 2 ->
-  forall i, nth_error (s_args s) i = Some 44 -> (i < length (cc_ovec c))%nat.
-
-Lemma deabstract_44 a t : deabstract a t = 44 -> t = 44.
-Proof.
-  unfold deabstract, between. destruct (Z.leb_spec 32 t); destruct (Z.leb_spec t 33); cbn [andb];
-    destruct (is_32bit a); lia.
-Qed.
-
+(* (round 4) the model describes the code with fixes/C06-win64-f80-by-ref.patch: an 80-bit float is passed by reference under the
+   positional strategy, so the former guard on kFloat80 (a 10-byte value in an 8-byte home slot) is gone *)
 Lemma x86_init_func_detail_wf c s ret args d : cc_wf c ->
-  ((cc_strategy c = 1 \/ cc_strategy c = 2) ->
-   forall k, nth_error args k = Some 44 -> order_at (cc_ovec c) (Z.of_nat k) <> 255) ->
   x86_init_func_detail c s ret args = R_ok d -> wf_locs d.
 Proof.
-  intros [[G1 _] [V1 _] Sp] F. unfold x86_init_func_detail.
+  intros [[G1 _] [V1 _] Sp]. unfold x86_init_func_detail.
   destruct (if ret =? 0 then _ else _) as [rets|]; [|discriminate].
   destruct ((cc_strategy c =? 1) || (cc_strategy c =? 2)) eqn:S.
-  - intros H; injection H as <-. apply locations_disjoint_win64; [exact G1 | exact V1|]. apply F.
-    apply orb_true_iff in S. destruct S as [S|S]; [left|right]; apply Z.eqb_eq; exact S.
+  - intros H; injection H as <-. apply locations_disjoint_win64; [exact G1 | exact V1].
   - destruct (x86_default_args c (sig_has_va s) (mkXst 0 0 (cc_spill c)) args) as [ps st] eqn:DA.
     intros H; injection H as <-. eapply locations_disjoint_default; [exact G1 | exact V1 | exact Sp | exact DA].
 Qed.
@@ -535,112 +519,26 @@ Proof.
   intros H; injection H as <-. eapply locations_disjoint_a64; [exact G1 | exact V1 | exact AA].
 Qed.
 
-Theorem func_detail_init_wf e s d : f80_guard e s -> func_detail_init e s = R_ok d -> wf_locs d.
+Theorem func_detail_init_wf e s d : func_detail_init e s = R_ok d -> wf_locs d.
 Proof.
-  intros G H. unfold func_detail_init in H.
+  intros H. unfold func_detail_init in H.
   destruct (32 <? Z.of_nat (length (s_args s))); [discriminate H|].
   destruct (init_call_conv e (s_cc s)) as [c|err] eqn:HC; [|discriminate H].
-  pose proof (init_call_conv_wf _ _ _ HC) as W. specialize (G c HC). cbv zeta in H.
-  assert (X : x86_init_func_detail c s (deabstract (cc_arch c) (s_ret s)) (map (deabstract (cc_arch c)) (s_args s)) = R_ok d ->
-              wf_locs d).
-  { apply x86_init_func_detail_wf; [exact W|]. intros S k K.
-    destruct W as [_ [_ [VL VF]] _]. apply order_at_in; [exact VL | exact VF|]. apply (G S).
-    rewrite nth_error_map in K. destruct (nth_error (s_args s) k) as [t|]; [|discriminate K].
-    cbn [option_map] in K. injection K as K. apply deabstract_44 in K. congruence. }
-  destruct (cc_arch c); [exact (X H) | exact (X H)|].
+  pose proof (init_call_conv_wf _ _ _ HC) as W. cbv zeta in H.
+  destruct (cc_arch c); [exact (x86_init_func_detail_wf _ _ _ _ _ W H) | exact (x86_init_func_detail_wf _ _ _ _ _ W H)|].
   exact (a64_init_func_detail_wf _ _ _ _ W H).
 Qed.
 
-(* the theorem, spelled out *)
-Theorem locations_disjoint : forall e s d, f80_guard e s -> func_detail_init e s = R_ok d ->
+(* the theorem, spelled out: EVERY environment, EVERY convention id, EVERY signature - no guard *)
+Theorem locations_disjoint : forall e s d, func_detail_init e s = R_ok d ->
   NoDup (map reg_key (reg_vals d)) /\
   (forall i j v w, (i < j)%nat -> nth_error (stack_vals d) i = Some v -> nth_error (stack_vals d) j = Some w ->
      fv_off v + val_bytes (cc_arch (fd_cc d)) v <= fv_off w) /\
   (forall v, In v (stack_vals d) -> 0 <= fv_off v /\ fv_off v + val_bytes (cc_arch (fd_cc d)) v <= fd_stack d).
-Proof. intros e s d G H. exact (func_detail_init_wf e s d G H). Qed.
-
-(* the guard is vacuous without an 80-bit float argument ... *)
-Corollary locations_disjoint_no_f80 : forall e s d, ~ In 44 (s_args s) -> func_detail_init e s = R_ok d -> wf_locs d.
-Proof.
-  intros e s d N. apply func_detail_init_wf. intros c _ _ i Hi. exfalso. apply N. eapply nth_error_In. exact Hi.
-Qed.
-
-(* ... and for every convention that does not use the positional strategy: all 32-bit x86 conventions (cdecl, stdcall,
-   fastcall, vectorcall, thiscall, regparm 1-3, light-call 2-4), all AArch64 conventions, and on x86-64 every id that
-   does not resolve to Win64 (33) or vectorcall (3), i.e. SysV and light-call 2-4 - for ALL signatures *)
-Corollary locations_disjoint_other : forall e s d,
-  (forall c, init_call_conv e (s_cc s) = inl c -> e_arch e <> X64 \/ (cc_id c <> 33 /\ cc_id c <> 3)) ->
-  func_detail_init e s = R_ok d -> wf_locs d.
-Proof.
-  intros e s d N. apply func_detail_init_wf. intros c HC S. exfalso.
-  destruct (strategy_cases _ _ _ HC S) as [A I]. destruct (N c HC) as [N1|[N1 N2]]; [exact (N1 A)|]. destruct I; contradiction.
-Qed.
-
-Corollary locations_disjoint_not_x64 : forall e s d, e_arch e <> X64 -> func_detail_init e s = R_ok d -> wf_locs d.
-Proof. intros e s d N. apply locations_disjoint_other. intros c _. left. exact N. Qed.
-
-Corollary locations_disjoint_x64_sysv_lightcall : forall e s d, e_arch e = X64 ->
-  (e_win e = false /\ should_treat_as_cdecl_x64 (s_cc s) = true) \/ s_cc s = 32 \/ between (s_cc s) 16 18 = true ->
-  func_detail_init e s = R_ok d -> wf_locs d.
-Proof.
-  intros e s d A C. apply locations_disjoint_other. intros c HC. right.
-  unfold init_call_conv in HC. rewrite A in HC. unfold x86_init_call_conv in HC. rewrite A in HC. cbn [is_32bit] in HC.
-  cbv zeta in HC. destruct C as [[W T]|[T|T]].
-  - rewrite T, W in HC. cbn [Z.eqb] in HC. injection HC as <-. cbn [cc_id]. lia.
-  - rewrite T in HC. cbn [should_treat_as_cdecl_x64 Z.eqb orb] in HC. injection HC as <-. cbn [cc_id]. lia.
-  - assert (R : 16 <= s_cc s <= 18).
-    { unfold between in T. apply andb_prop in T. destruct T as [T1 T2]. apply Z.leb_le in T1. apply Z.leb_le in T2. lia. }
-    assert (N : should_treat_as_cdecl_x64 (s_cc s) = false).
-    { unfold should_treat_as_cdecl_x64.
-      repeat match goal with |- context [?x =? ?y] => destruct (Z.eqb_spec x y); [lia|] end. reflexivity. }
-    rewrite N, T in HC.
-    destruct (Z.eqb_spec (s_cc s) 32); [lia|]. destruct (Z.eqb_spec (s_cc s) 33); [lia|].
-    destruct (Z.eqb_spec (s_cc s) 3); [lia|].
-    assert (E : s_cc s = cc_id c)
-      by exact (f_equal (fun r : callconv + Z => match r with inl c0 => cc_id c0 | inr _ => 0 end) HC).
-    rewrite <- E. lia.
-Qed.
-
-(* ------------------------------------------------------------------ the guard is needed: machine-checked counterexamples *)
-(* Win64 (x86-64, Windows), cdecl: f(int32, int32, int32, int32, float80, int32).  The float80 is the 5th argument: no
-   vector register, home slot at offset 32, 10 bytes; the 6th argument sits at offset 40: the slots overlap by 2 bytes. *)
-Definition cx_env : env := mkEnv X64 1 1.
-Definition cx_sig_overlap : sig := mkSig 0 255 0 [38; 38; 38; 38; 44; 38].
-Definition cx_sig_area : sig := mkSig 0 255 0 [38; 38; 38; 38; 44].
-
-Example f80_win64_slots_overlap :
-  exists d, func_detail_init cx_env cx_sig_overlap = R_ok d /\
-    nth_error (stack_vals d) 0 = Some (fv_stack 44 32) /\ nth_error (stack_vals d) 1 = Some (fv_stack 38 40) /\
-    val_bytes (cc_arch (fd_cc d)) (fv_stack 44 32) = 10 /\
-    ~ (fv_off (fv_stack 44 32) + val_bytes (cc_arch (fd_cc d)) (fv_stack 44 32) <= fv_off (fv_stack 38 40)).
-Proof.
-  eexists. split; [vm_compute; reflexivity|]. split; [vm_compute; reflexivity|]. split; [vm_compute; reflexivity|].
-  split; [vm_compute; reflexivity|]. vm_compute. intros H. apply H. reflexivity.
-Qed.
-
-(* f(int32, int32, int32, int32, float80): the float80 occupies [32, 42) but the reported stack argument area is 40 bytes *)
-Example f80_win64_outside_area :
-  exists d, func_detail_init cx_env cx_sig_area = R_ok d /\ In (fv_stack 44 32) (stack_vals d) /\ fd_stack d = 40 /\
-    ~ (fv_off (fv_stack 44 32) + val_bytes (cc_arch (fd_cc d)) (fv_stack 44 32) <= fd_stack d).
-Proof.
-  eexists. split; [vm_compute; reflexivity|]. split; [vm_compute; left; reflexivity|]. split; [vm_compute; reflexivity|].
-  vm_compute. intros H. apply H. reflexivity.
-Qed.
-
-Theorem locations_disjoint_needs_guard : ~ (forall e s d, func_detail_init e s = R_ok d -> wf_locs d).
-Proof.
-  intros H. destruct f80_win64_slots_overlap as (d & D & V & W & _ & N). apply N.
-  destruct (H _ _ _ D) as (_ & O & _). apply (O 0%nat 1%nat); [lia | exact V | exact W].
-Qed.
+Proof. intros e s d H. exact (func_detail_init_wf e s d H). Qed.
 
 Print Assumptions locations_disjoint.
 Print Assumptions locations_disjoint_default.
 Print Assumptions locations_disjoint_win64.
 Print Assumptions locations_disjoint_a64.
 Print Assumptions init_call_conv_wf.
-Print Assumptions strategy_cases.
-Print Assumptions locations_disjoint_no_f80.
-Print Assumptions locations_disjoint_other.
-Print Assumptions locations_disjoint_not_x64.
-Print Assumptions locations_disjoint_x64_sysv_lightcall.
-Print Assumptions locations_disjoint_needs_guard.
